@@ -593,6 +593,13 @@ nextBTreeItems(SetIteration *i)
         else
         {
             i->position = -1;
+            /* IndexError is how BTreeItems_seek says "past the end";
+             * anything else (a bucket that could not be loaded, a bucket
+             * that changed size under the iteration) is an error, not the
+             * end of the items.
+             */
+            if (!PyErr_ExceptionMatches(PyExc_IndexError))
+                return -1;
             PyErr_Clear();
         }
     }
@@ -633,6 +640,13 @@ nextTreeSetItems(SetIteration *i)
         else
         {
             i->position = -1;
+            /* IndexError is how BTreeItems_seek says "past the end";
+             * anything else (a bucket that could not be loaded, a bucket
+             * that changed size under the iteration) is an error, not the
+             * end of the items.
+             */
+            if (!PyErr_ExceptionMatches(PyExc_IndexError))
+                return -1;
             PyErr_Clear();
         }
     }
